@@ -1,7 +1,8 @@
 (* C12 -- concurrent senders never interleave packets.  Statements only; proofs in Proofs/C12_*.v. *)
 From Coq Require Import List Arith Bool Sorting.Sorted.
-From EN Require Import Lib.Bytes Conc.FairLock Conc.Guard Conc.SendSerial Conc.AsyncioLock Proofs.C12_fairlock Proofs.C12_asynciolock Proofs.C12_wire Proofs.C12_guard Proofs.C12_order Conc.TlsSend Proofs.C12_tls.
+From EN Require Import Lib.Bytes Conc.FairLock Conc.Guard Conc.SendSerial Conc.AsyncioLock Proofs.C12_fairlock Proofs.C12_asynciolock Proofs.C12_wire Proofs.C12_guard Proofs.C12_order Conc.TlsSend Proofs.C12_tls IO.Retry IO.ClientLocks Conc.BlockingSend Proofs.C12_blocking.
 Import ListNotations.
+Open Scope nat_scope.
 
 (* FairLock, every label sequence (acquire / resume / cancel of ANY waiter at ANY time / release): at most one holder,
    and a holder implies _locked *)
@@ -137,6 +138,41 @@ Example tls_example :
   exists s, x_run (tls_init [[[[1%N]; [5%N]]; [[4%N]]]; [[[2%N]]]; [[[3%N]]]]) [TStart 0; TStart 1; TStart 2; TWrite 0; TResume 1] = Some s
             /\ rev (x_calls s) = [[1%N; 5%N]; [2%N; 3%N; 4%N]] /\ x_wbio s = [].
 Proof. eexists. split; [vm_compute; reflexivity|]. split; reflexivity. Qed.
+
+(* Blocking TCPNetworkClient / UDPNetworkClient.  IO/ClientLocks.v (builder-io; its theorems locks_free_at_quiescence,
+   send_never_waits_on_recv_lock ... are in Props/C11.v) gives: a lock is owned only by a call inside its body.  The
+   converse, for every reachable ClientLocks state: a call inside its body owns its lock, so two bodies guarded by the
+   same lock (two send_packet calls; or send_packet and close()) never overlap. *)
+Theorem blocking_send_bodies_exclusive :
+  forall (s : cst) (k1 k2 : nat) (c1 c2 : call), reachable s ->
+    lookup k1 (cs s) = Some c1 -> lookup k2 (cs s) = Some c2 -> c_ph c1 = PHold -> c_ph c2 = PHold ->
+    lock_of (c_m c1) = lock_of (c_m c2) -> k1 = k2.
+Proof. exact bodies_exclusive_proof. Qed.
+Print Assumptions blocking_send_bodies_exclusive.
+
+(* ClientLocks composed with the wire (Conc/BlockingSend.v): any number of threads calling send_packet (with any
+   timeouts), recv_packet and the quick methods, every history of starts, grants, give-ups, partial socket writes and
+   finishes (normal or by an exception in the middle of a packet): the wire is the concatenation of one segment per
+   send that entered its body, in that order; a segment is a prefix of its packet and the whole packet when the call
+   returned; only the newest segment -- the one of the call that owns the send lock -- can be in progress: packets of
+   concurrent blocking senders are contiguous on the wire. *)
+Theorem blocking_wire_is_concat_of_packets :
+  forall (ls : list blabel) (s : bst), b_run b_init ls = Some s ->
+    b_wire s = concat (map seg_bytes (rev (b_segs s))) /\
+    (forall g, In g (b_segs s) -> (sg_written g <= length (sg_pkt g))%nat /\
+                                  (sg_st g = SgComplete -> seg_bytes g = pkt_bytes (sg_pkt g))) /\
+    Forall not_active (tl (b_segs s)) /\
+    (forall k, in_send_body k (b_c s) = true -> o_send (b_c s) = Some k /\ exists g r, b_segs s = g :: r /\ sg_owner g = k) /\
+    (all_complete (b_segs s) -> b_wire s = concat (map (fun g => pkt_bytes (sg_pkt g)) (rev (b_segs s)))).
+Proof. exact blocking_wire_is_concat_of_packets_proof. Qed.
+Print Assumptions blocking_wire_is_concat_of_packets.
+
+Example blocking_example :
+  exists s, b_run b_init [BLock (Start 0 MSend None) [[1%N]; [2%N]]; BLock (Start 1 MSend None) [[3%N]]; BPiece 0;
+                          BLock (Start 2 MRecv None) []; BPiece 0; BLock (Finish 0 true) []; BLock (Grant 1) [];
+                          BPiece 1; BLock (Finish 1 true) []] = Some s
+            /\ b_wire s = [1%N; 2%N; 3%N] /\ o_send (b_c s) = None /\ o_recv (b_c s) = Some 2.
+Proof. eexists. split; [vm_compute; reflexivity|]. repeat split. Qed.
 
 (* non-vacuity: two senders with the lock, the second one parks, the first completes, the hand-off happens *)
 Example send_serial_example :
